@@ -1497,6 +1497,24 @@ def h_index(I, st, callee, target, args, ctx):
             if not okk:
                 return []
             return [(st, VSlice(v.buf, v.start + lo, hi - lo))]
+        if isinstance(v, VStr) and kind in ("Range", "RangeFrom", "RangeTo", "RangeFull"):
+            # &s[a..b] panics unless a <= b <= len and both are character boundaries; the length of a
+            # decoded string is opaque here, so the obligation is discharged only for constants inside
+            # a literal - otherwise it stays open (and is a finding of C01)
+            ln = lin_of(st, I.len_of(st, v))
+            lo, hi = Lin.const(0), ln
+            if kind == "Range":
+                lo, hi = lin_of(st, idx.fields[0]), lin_of(st, idx.fields[1])
+            elif kind == "RangeFrom":
+                lo = lin_of(st, idx.fields[0])
+            elif kind == "RangeTo":
+                hi = lin_of(st, idx.fields[0])
+            d1 = st.decide(("le0", lo - hi))
+            d2 = st.decide(("le0", hi - ln))
+            ascii_ = v.term[0] != "cstr" or all(b < 128 for b in v.term[1])
+            okk = d1 is True and d2 is True and ascii_
+            panic_obligation(I, st, ctx, "str slice index", okk, None if okk else "range %r..%r of a string of length %r (out of range or not a character boundary)" % (lo, hi, ln))
+            return [(st, VStr(("substr", v.term, lo.key(), hi.key())))]
         raise Unanalysable("range index %s on %r" % (kind, v))
     if isinstance(v, VSeq) and isinstance(idx, VInt):
         ln = I.seq_len(st, v.term)
@@ -2434,3 +2452,66 @@ def h_strip_prefix(I, st, callee, target, args, ctx):
     if nok is not None:
         out.append((nok, no))
     return out
+
+
+def _nocap(k):
+    """a raw value key without capacity annotations (Vec and heapless::Vec contents compare equal)"""
+    if isinstance(k, tuple) and k:
+        if k[0] == "list" and len(k) >= 2 and (k[1] is None or isinstance(k[1], int)):
+            return ("list", None) + tuple(_nocap(x) for x in k[2:])
+        if k[0] == "elems" and len(k) == 7:
+            return tuple(_nocap(x) for x in k[:6]) + (None,)
+        if k[0] == "seq" and len(k) == 3:
+            return ("seq", _nocap(k[1]), None)
+        return tuple(_nocap(x) for x in k)
+    return k
+
+
+@ext("core:str::find", "core:str::rfind")
+def h_str_find(I, st, callee, target, args, ctx):
+    v = deref(I, st, args[0])
+    if not isinstance(v, VStr):
+        raise Unanalysable("str::find on %r" % (v,))
+    pat = args[1]
+    pk = lin_of(st, pat).c if isinstance(pat, VInt) and lin_of(st, pat).is_const() else valkey(pat)
+    key = _nocap((target["def"].rsplit("::", 1)[1], v.term, pk))
+    s1, s2 = st, st.copy()
+    s1.pc.opq[key] = True
+    s2.pc.opq[key] = False
+    ln = lin_of(st, I.len_of(st, v))
+    pos = VInt(64, False, lin=Lin.atom(("strpos",) + tuple(key) + (0, MAXLEN)))
+    outs = []
+    x = _add_fact_le0(s1, lin_of(s1, pos) - ln + 1)      # position < len
+    if x is not None:
+        outs.append((x, mk_some(pos)))
+    outs.append((s2, NONE))
+    return outs
+
+
+@ext("core:str::len")
+def h_str_len(I, st, callee, target, args, ctx):
+    return [(st, I.len_of(st, args[0]))]
+
+
+@ext("core:str::get")
+def h_str_get(I, st, callee, target, args, ctx):
+    v = deref(I, st, args[0])
+    idx = args[1]
+    if not isinstance(v, VStr) or not (isinstance(idx, VAdt) and "::ops::range::" in idx.adt):
+        raise Unanalysable("str::get(%r) on %r" % (idx, v))
+    kind = idx.adt.rsplit("::", 1)[1]
+    ln = lin_of(st, I.len_of(st, v))
+    lo, hi = Lin.const(0), ln
+    if kind == "Range":
+        lo, hi = lin_of(st, idx.fields[0]), lin_of(st, idx.fields[1])
+    elif kind == "RangeFrom":
+        lo = lin_of(st, idx.fields[0])
+    elif kind == "RangeTo":
+        hi = lin_of(st, idx.fields[0])
+    elif kind != "RangeFull":
+        raise Unanalysable("str::get with %s" % kind)
+    key = _nocap(("str_get", v.term, lo.key(), hi.key()))
+    s1, s2 = st, st.copy()
+    s1.pc.opq[key] = True
+    s2.pc.opq[key] = False
+    return [(s1, mk_some(VStr(("substr", v.term, lo.key(), hi.key())))), (s2, NONE)]
